@@ -34,8 +34,7 @@ def run(ctx, model_ok):
                             "the dispatcher cel ARE modelled (Model/Celv.lean, celbatch rows of the kern stream, bit-identical) and proved: celv_terminates / celDispatch_terminates (every entry "
                             "kc != 0: the loop ends after at most celvFuel batch passes, the largest of the entries' cel0 bounds, celvFuel_is_max), celv_loops_at_zero (one entry kc = 0 and no row "
                             "of the batch gets a result: known finding Cylinder denormal-height; the stream never calls the real celv with kc == 0), celv_fuel_irrelevant; "
-                            "cel_iterv and the dispatcher cel_iter are modelled, tied by the kern stream and proved to terminate on batches. Not shown: non-vanishing of celv's divisors pp, g "
-                            "(prologue p <= 0) and em*(em+pp); float termination",
+                            "cel_iterv and the dispatcher cel_iter are modelled, tied by the kern stream and proved to terminate on batches (bound = the largest of the entries' bounds; Props/C06 cel_iterv_passes_partial: the batch makes exactly as many passes as its slowest entry needs). celv's / cel0's divisors: celv_divisors_nonzero (exact arithmetic, kc != 0, ARBITRARY p, c, s: the prologue's g = 1 - p and pp, the loop's pp at every pass and em*(em+pp) at every pass are positive; celv_value_is_out_after_passes ties the returned value to those states; the list of divisions is read off the source), celv_divisor_vanishes_at_zero (kc = 0, p = 0: pp = 0 — the only zero divisor; there cel0 raises and celv does not return anyway). The batched Cylinder (Model/CylinderBatch.lean, cylbatch rows) returns iff every row's own computation returns (Props/C06 cylinder_batch_rowwise). Not shown: float behaviour — kc*kc underflows for 0 < |kc| < 1.5e-162 and with p = 0 the real cel0 / celv then return NaN (cel0(1e-162, 0, 1, 0.3)); not reachable through Cylinder (its kc at p = 0, i.e. r = r0, is exactly 0 — the known denormal-height finding — or >= 2.2e-162); float termination",
                             "definedness of the CylinderSegment closed form off its special sets (ported with opaque special functions; no theorem, in particular none that bhjmCylSeg / "
                             "bhjmCylSegInternal returns a value). Cuboid: the edge mask is proved to cover the zero set of all 24 logarithm factors "
                             "CylinderSegment: the dispatch is total for every observer the wrapper lets through (`wrapper_never_dispatches_unhandled`, full strength after the repair of the surface masks; hypothesis |r1| <= |r2|); the NaN rows are characterised exactly (`cylseg_nan_rows_characterised`); definedness of the individual closed forms (divisors, log / atanh arguments) off their special sets is not shown (observers a relative 1e-9 off a base plane can return NaN: reported). Cuboid: the edge mask is proved to cover the zero set of all 24 logarithm factors "
